@@ -174,7 +174,15 @@ struct Ctx {
     Stats *stats = nullptr;
     uint64_t case_no = 0;
     void count(const std::string &k, uint64_t n = 1) { if (stats->recording) stats->classes[k] += n; }
-    std::string path(const std::string &name) const { return work + "/" + name; }
+    // every case works on files of its own: a name is prefixed with the serial number of the case, and the
+    // files of the previous case are removed when the next one starts
+    uint64_t serial = 0;
+    std::string path(const std::string &name) const {
+        std::string p = work + "/k" + std::to_string(serial) + "_" + name;
+        created().push_back(p);
+        return p;
+    }
+    static std::vector<std::string> &created() { static std::vector<std::string> v; return v; }
 };
 
 typedef std::function<void(Tape &, Ctx &)> CaseFn;
@@ -274,6 +282,10 @@ inline std::set<std::string> accepted_known() {
 
 // run one case: returns "" on pass, message on failure; known findings are counted
 inline std::string run_case(const CaseFn &fn, const std::vector<uint32_t> &words, Ctx &ctx, bool record) {
+    static uint64_t serial = 0;
+    for (auto &p : Ctx::created()) unlink(p.c_str());
+    Ctx::created().clear();
+    ctx.serial = ++serial;
     Tape t(words);
     Stats &st = *ctx.stats;
     std::string fail;
@@ -295,6 +307,15 @@ inline std::string run_case(const CaseFn &fn, const std::vector<uint32_t> &words
     }
     // HDF5 keeps freed memory on internal free lists; without this a long run grows by ~1 MB per case
     H5garbage_collect();
+    if (getenv("VERIF_LEAKDIAG")) {
+        ssize_t open_ids = H5Fget_obj_count(static_cast<hid_t>(H5F_OBJ_ALL), H5F_OBJ_FILE | H5F_OBJ_GROUP | H5F_OBJ_DATASET | H5F_OBJ_ATTR);
+        if (open_ids > 0) {
+            std::vector<hid_t> ids(static_cast<size_t>(open_ids));
+            H5Fget_obj_ids(static_cast<hid_t>(H5F_OBJ_ALL), H5F_OBJ_FILE | H5F_OBJ_GROUP | H5F_OBJ_DATASET | H5F_OBJ_ATTR, ids.size(), ids.data());
+            for (hid_t i : ids) fprintf(stderr, "LEAKDIAG   id %lld type %d ref %d\n", (long long)i, (int)H5Iget_type(i), H5Iget_ref(i));
+        }
+        if (open_ids != 0) fprintf(stderr, "LEAKDIAG case %llu leaves %ld open HDF5 ids: %s\n", (unsigned long long)ctx.case_no, (long)open_ids, ctx.trace.str().substr(0, 600).c_str());
+    }
     if (fail.empty() && record) {
         if (ctx.nontrivial) {
             std::string tr = ctx.trace.str();
@@ -346,7 +367,7 @@ inline Options parse_args(int argc, char **argv, int first) {
 typedef std::function<void(const std::function<void(const std::vector<uint32_t> &)> &)> EnumFn;
 
 inline int drive(const std::string &prop, const Options &opt, const CaseFn &fn, const EnumFn &enumerate = EnumFn()) {
-    H5Eset_auto2(H5E_DEFAULT, nullptr, nullptr);
+    if (!getenv("VERIF_H5DIAG")) H5Eset_auto2(H5E_DEFAULT, nullptr, nullptr);
     Stats st;
     double t0 = now_s();
     if (opt.mode == "enum") {
